@@ -433,7 +433,7 @@ def foreign_targets(cls, inst):
 # copy-only report of the save / load bodies
 # ------------------------------------------------------------------------------------------
 _ALLOWED_CALLS = {
-    "list", "tuple", "dict", "deque", "collections.deque", "len", "hasattr", "int", "float", "str", "bool",
+    "list", "tuple", "dict", "deque", "collections.deque", "Counter", "collections.Counter", "len", "hasattr", "int", "float", "str", "bool",
     "super", "torch.tensor", "torch.as_tensor", "Parameter.from_json", "copy.deepcopy", "deepcopy", "zip", "enumerate",
 }
 _ALLOWED_METHODS = {
